@@ -119,8 +119,8 @@ fn dynamic_check(bc: &Bytecode, res: &bcv::ProgramResult, reg: &qrun::Registry, 
 pub fn check_case(case: &Case, reg: &qrun::Registry, dynamic: bool) -> CaseOutcome {
     let mut out = CaseOutcome { compiled: false, functions: 0, nontrivial_functions: 0, classes: vec![], violation: None, dyn_points: 0, harness_error: None, nontail: false };
     let modules = qrun::Modules::new();
-    let nontail = match catch(|| quiver_compiler::parse(&case.source)) {
-        Ok(Ok(ast)) => crate::astu::has_nontail_tailcall(&ast),
+    let (nontail, star) = match catch(|| quiver_compiler::parse(&case.source)) {
+        Ok(Ok(ast)) => (crate::astu::has_nontail_tailcall(&ast), format!("{ast:?}").contains("Star(")),
         _ => return out,
     };
     let c = match catch(|| qrun::compile(&case.source, &modules, reg)) {
@@ -140,6 +140,16 @@ pub fn check_case(case: &Case, reg: &qrun::Registry, dynamic: bool) -> CaseOutco
             out.classes.push("excluded:nontail-tailcall".into());
         }
         out.nontail = true;
+    }
+    if star {
+        // Known finding (witness:star-over-union): a star pattern over a union whose variants have
+        // different labelled fields binds a different variable set per variant; a use of a variable
+        // bound by only some variants reads an undefined local. Only that issue kind is attributed.
+        let before = res.issues.len();
+        res.issues.retain(|i| i.kind != "load-undefined-local");
+        if res.issues.len() != before {
+            out.classes.push("excluded:star-over-union".into());
+        }
     }
     out.functions = res.functions;
     for f in &res.facts {
@@ -161,7 +171,7 @@ pub fn check_case(case: &Case, reg: &qrun::Registry, dynamic: bool) -> CaseOutco
         return out;
     }
     out.classes.push("form:as-compiled".into());
-    if dynamic && c.entry.is_some() && !nontail {
+    if dynamic && c.entry.is_some() && !nontail && !star {
         match catch(|| dynamic_check(&bc, &res, reg, 20_000)) {
             Ok(Ok(n)) => {
                 out.dyn_points = n;
@@ -182,6 +192,9 @@ pub fn check_case(case: &Case, reg: &qrun::Registry, dynamic: bool) -> CaseOutco
                 let mut r2 = bcv::verify_bytecode(&shaken);
                 if nontail {
                     r2.issues.retain(|i| i.kind != "tail-call-height");
+                }
+                if star {
+                    r2.issues.retain(|i| i.kind != "load-undefined-local");
                 }
                 if let Some(i) = r2.issues.first() {
                     out.violation = Some(fmt_issue("tree-shaken", i, &shaken));
@@ -226,6 +239,9 @@ pub fn check_case(case: &Case, reg: &qrun::Registry, dynamic: bool) -> CaseOutco
                 let mut r3 = bcv::verify_bytecode(&mbc);
                 if nontail || case.before_nontail(reg) {
                     r3.issues.retain(|i| i.kind != "tail-call-height");
+                }
+                if star || case.before.iter().any(|b| b.contains('*')) {
+                    r3.issues.retain(|i| i.kind != "load-undefined-local");
                 }
                 if let Some(i) = r3.issues.first() {
                     out.violation = Some(fmt_issue("merged", i, &mbc));
@@ -344,6 +360,18 @@ pub fn run(ctx: &Ctx) -> i32 {
         let reg = qrun::registry();
         let known = KnownFindings::load();
         for e in known.known_for(ctx.id) {
+            if e.signature == "witness:star-over-union" {
+                let src = "'union = Config[a: 'int, b: 'int] | Other[x: 'int]\n#'union { =* => [a, b] | None } =f\n[Config[a: 1, b: 2] f, Other[x: 9] f]";
+                let bad = match qrun::compile(src, &qrun::Modules::new(), &reg) {
+                    Ok(c) => bcv::verify_bytecode(&c.program.to_bytecode(c.entry)).issues.iter().any(|i| i.kind == "load-undefined-local"),
+                    Err(_) => false,
+                };
+                if bad {
+                    stats.known_hit(&e.signature);
+                } else {
+                    println!("NOTE: known finding {} no longer reproduces", e.signature);
+                }
+            }
             if e.signature == "witness:nontail-tailcall" {
                 let src = "f = #'int { [^, 1] }";
                 let bad = match qrun::compile(src, &qrun::Modules::new(), &reg) {
